@@ -211,3 +211,7 @@ class Nameplate:
     S5B.upon(lost, enter=S5A, outputs=[])
     S5.upon(release, enter=S5, outputs=[])  # mailbox is lazy
     S5.upon(close, enter=S5, outputs=[])
+    # a code can still show up after we have shut down (the server's
+    # "allocated" response racing with close(), or set_code() on a wormhole
+    # that already failed): too late to be useful
+    S5.upon(_set_nameplate, enter=S5, outputs=[])
